@@ -315,7 +315,7 @@ func checkProperty(p *Program, prop, tier string, timeoutS, workers int, start t
 	}
 	findings := readFindings(filepath.Join(p.verif, "known_findings.txt"))
 	for _, f := range findings {
-		if f.kind == "finding" && f.prop == prop {
+		if f.kind == "finding" {
 			knownFailing[f.obligation] = true
 		}
 	}
@@ -324,6 +324,7 @@ func checkProperty(p *Program, prop, tier string, timeoutS, workers int, start t
 	os.RemoveAll(replayDir)
 	nObl, nDis, nCover, nVac := 0, 0, 0, 0
 	var violations, known []string
+	oorSeen := map[string]bool{}
 	var samples []map[string]interface{}
 	type slow struct {
 		name string
@@ -358,9 +359,18 @@ func checkProperty(p *Program, prop, tier string, timeoutS, workers int, start t
 			}
 			continue
 		}
+		if oc.Status == "out-of-reach" {
+			if oorSeen[oc.Func.Name] {
+				continue
+			}
+			oorSeen[oc.Func.Name] = true
+			violations = append(violations, reportFailure(p, prop, replayDir, oc, "function "+oc.Func.Name+" is out of the verifier's reach on this tree: "+truncate(oc.Res.Output, 600)+" (all its obligations are undecided)"))
+			continue
+		}
 		isKnown := false
 		for _, f := range findings {
-			if f.kind == "finding" && f.prop == prop && f.obligation == oc.Obl.Name {
+			// a listed finding names one obligation; the same obligation may sit in the cone of several properties
+			if f.kind == "finding" && f.obligation == oc.Obl.Name {
 				known = append(known, fmt.Sprintf("KNOWN-FINDING: property=%s obligation=%s %s", prop, oc.Obl.Name, f.text))
 				isKnown = true
 			}
